@@ -100,6 +100,14 @@ def feature(t):
     return t[0] if t[0] not in V.SCALARS else 'scalar'
 
 
+def culprit_kind(c):
+    """Fingerprint component for the smallest failing subtree c: its node kind; for a UDT node
+    the peculiarity of its own names."""
+    if c[0] == 'udt':
+        return feature(('udt', c[1], c[2], tuple((fn, ('int',)) for fn, _ in c[3])))
+    return c[0] if c[0] not in V.SCALARS else 'scalar'
+
+
 def smallest(t, fails):
     """Smallest subtree for which fails(subtree) still holds."""
     for s in V.subtypes(t):
@@ -201,11 +209,6 @@ def structure_difference(C, t, T):
 
 
 # ------------------------------------------------------------------------------- clauses
-def parse_ok(C, t, sep=','):
-    C.lookup_casstype(V.marshal_class(t, sep=sep))
-    return True
-
-
 def clause_parse(part, reg, t, case):
     """-> parsed driver type or None"""
     C = reg.C
@@ -223,7 +226,7 @@ def clause_parse(part, reg, t, case):
                 except Exception:
                     return True
             culprit = smallest(t, fails)
-            part.violation('C28/parse/%s/%s' % (feature(culprit), type(e).__name__),
+            part.violation('C28/parse/%s/%s' % (culprit_kind(culprit), type(e).__name__),
                            'lookup_casstype(%r) raised %r (smallest failing subtree: %s)' % (desc, e, V.marshal_class(culprit, full=False)), case)
             part.outcome(('parse', 'raises', feature(culprit)))
             return None
@@ -239,7 +242,7 @@ def clause_parse(part, reg, t, case):
     why = structure_difference(C, t, T)
     if why:
         culprit = smallest(t, lambda s: structure_difference(C, s, C.lookup_casstype(V.marshal_class(s))) is not None)
-        part.violation('C28/parse-structure/%s' % feature(culprit),
+        part.violation('C28/parse-structure/%s' % culprit_kind(culprit),
                        'lookup_casstype(%r) is not the described type: %s' % (V.marshal_class(t), why), case)
         part.outcome(('parse', 'structure-differs', feature(culprit)))
         return None
@@ -256,7 +259,7 @@ def clause_parse(part, reg, t, case):
             w = driver_cql(s)
             return w is not None and C.lookup_casstype(V.marshal_class(s)).cql_parameterized_type() != w
         culprit = smallest(t, fails)
-        part.violation('C28/parse-cql-name/%s' % feature(culprit),
+        part.violation('C28/parse-cql-name/%s' % culprit_kind(culprit),
                        'lookup_casstype(%r).cql_parameterized_type() = %r, expected %r' % (V.marshal_class(t), got, want), case)
         part.outcome(('parse', 'cql-name-differs', feature(culprit)))
     else:
@@ -273,7 +276,7 @@ def clause_parse(part, reg, t, case):
         def fails(s):
             return codec_difference(strip_wrappers(s), C.lookup_casstype(V.marshal_class(s)), B.driver_type(strip_wrappers(s))) is not None
         culprit = smallest(t, fails)
-        part.violation('C28/parse-codec/%s' % feature(culprit),
+        part.violation('C28/parse-codec/%s' % culprit_kind(culprit),
                        'type parsed from %r does not encode/decode like %s: %s' % (V.marshal_class(t), V.cql_name(plain), why), case)
         part.outcome(('parse-codec', 'differs', feature(culprit)))
     return T
@@ -346,9 +349,33 @@ def name_feature(t):
     return 'plain'
 
 
+def freeze_nested(t, top=True):
+    """The tree as Cassandra spells it in system_schema: every collection, tuple or UDT below the
+    top level is frozen, tuples are frozen everywhere."""
+    k = t[0]
+    if k in V.SCALARS:
+        return t
+    if k == 'frozen':
+        return ('frozen', freeze_nested(t[1], False)[1] if freeze_nested(t[1], False)[0] == 'frozen' else freeze_nested(t[1], False))
+    if k == 'udt':
+        r = ('udt', t[1], t[2], tuple((fn, freeze_nested(ft, False)) for fn, ft in t[3]))
+    elif k == 'vector':
+        return ('vector', freeze_nested(t[1], False), t[2])
+    else:
+        r = (k,) + tuple(freeze_nested(s, False) for s in t[1:])
+    return ('frozen', r) if (not top or k == 'tuple') else r
+
+
 def clause_cql(part, reg, t, case):
-    C = reg.C
     t = strip_wrappers(t, ('reversed',))
+    _clause_cql(part, reg, t, case)
+    f = freeze_nested(t)
+    if f != t:
+        _clause_cql(part, reg, f, case)
+
+
+def _clause_cql(part, reg, t, case):
+    C = reg.C
     for sep in (', ', ','):
         s = V.cql_name(t, sep=sep)
         part.count('evaluations')
@@ -430,6 +457,7 @@ def run_chunk(args):
 
 
 def run(ctx):
+    V.selftest()
     import cassandra.cqltypes       # before the fork
     depth = 3 if ctx.quick else 4
     levels = G.descriptor_type_trees(depth)
